@@ -2,7 +2,7 @@
 //! Engine E4: for each scenario the fault-free run records N stream calls; for every k < N the
 //! execution in which call k and all later calls fail is run (exhaustive in k).
 use super::scen::*;
-use crate::env::{DefaultChooser, FailFromKind, Kind};
+use crate::env::{DefaultChooser, EofFrom, FailFromKind, Kind};
 use std::io::ErrorKind;
 use crate::report::Report;
 use rayon::prelude::*;
@@ -54,7 +54,7 @@ pub fn judge_fault(role: Role, base: &Outcome, o: &Outcome) -> Option<(&'static 
 
 pub fn run(tier: &str) -> i32 {
     let rep = Report::new("C15", tier, "fault_enumeration");
-    rep.rule("for each scenario (header/directory/archive read and write, lookups, re-write over a failing backing reader, read_directories/write_directories, codec adapters; 4 compressions; sync and async; leaf-spill writers) the fault-free run records N stream calls (reads, writes, seeks, flushes, closes - including those issued from a codec's Drop); every k in [0,N) is executed with call k and all later calls failing, once per error kind in {Other, UnexpectedEof, BrokenPipe, InvalidData}; oracle: Err, or Ok only with the complete image/value; a panic is a violation; non-trivial = every faulty execution; distinct = (scenario, k)");
+    rep.rule("for each scenario (header/directory/archive read and write, lookups, re-write over a failing backing reader, read_directories/write_directories, codec adapters; 4 compressions; sync and async; leaf-spill writers) the fault-free run records N stream calls (reads, writes, seeks, flushes, closes - including those issued from a codec's Drop); every k in [0,N) is executed with call k and all later calls failing, once per error kind in {Other, UnexpectedEof, BrokenPipe, InvalidData, TimedOut, WouldBlock} (Interrupted is excluded: std retries it forever on a fail-stop stream), and once with the source simply ending at call k (reads deliver 0 bytes); oracle: Err, or Ok only with the complete image/value; a panic is a violation; non-trivial = every faulty execution; distinct = (scenario, k)");
     rep.assume("fail-stop faults only (sticky); transient faults are outside the property");
     let scs = scenarios(true);
     let mut kinds_hit: std::collections::BTreeMap<String, u64> = Default::default();
@@ -73,7 +73,7 @@ pub fn run(tier: &str) -> i32 {
         }
         // a stream may report a failure with any error kind: the generic one, and the kinds a library is
         // most tempted to treat specially (end of stream, connection loss, bad data)
-        let kinds = [ErrorKind::Other, ErrorKind::UnexpectedEof, ErrorKind::BrokenPipe, ErrorKind::InvalidData];
+        let kinds = [ErrorKind::Other, ErrorKind::UnexpectedEof, ErrorKind::BrokenPipe, ErrorKind::InvalidData, ErrorKind::TimedOut, ErrorKind::WouldBlock];
         let cases: Vec<(usize, ErrorKind)> = ks.iter().flat_map(|k| kinds.iter().map(move |e| (*k, *e))).collect();
         let res: Vec<(usize, ErrorKind, Option<(&'static str, String)>, Kind)> = cases
             .par_iter()
@@ -94,6 +94,45 @@ pub fn run(tier: &str) -> i32 {
                 rep.violation(format!("{what}/{}", sc.name), format!("fault ({ek:?}) from call {k} of {n} ({:?} at offset {}): {d}", log.get(k).map(|o| o.kind), log.get(k).map(|o| o.pos).unwrap_or(0)), json!({"kind":"fault","scenario":sc.name,"k":k,"error_kind":format!("{ek:?}")}));
             }
         }
+        // the stream ends at call k: nothing more is delivered or accepted. Success is only acceptable with the
+        // complete value/image (the library may already have everything it needs)
+        let eres: Vec<(usize, Option<(&'static str, String)>)> = ks
+            .par_iter()
+            .map(|k| {
+                let (o, _) = (sc.run)(Box::new(EofFrom(*k)));
+                let bad = match &o.result {
+                    Err(e) if e.starts_with("PANIC") => Some(("panic", format!("panics: {e}"))),
+                    Err(_) => None,
+                    Ok(_) if !base.parts.is_empty() => {
+                        let mut r = None;
+                        for (i, (name, pr)) in o.parts.iter().enumerate() {
+                            if let Ok(v) = pr {
+                                if !matches!(base.parts.get(i), Some((bn, Ok(bv))) if bn == name && bv == v) {
+                                    r = Some(("ok-after-end-of-stream", format!("call '{name}' returns Ok({}) which is not the value of the complete stream", v.chars().take(80).collect::<String>())));
+                                    break;
+                                }
+                            }
+                        }
+                        r
+                    }
+                    Ok(v) => {
+                        let complete = match sc.role {
+                            Role::Writer => o.image == base.image,
+                            Role::Reader => Ok(v) == base.result.as_ref(),
+                        };
+                        if complete { None } else { Some(("ok-after-end-of-stream", "returns Ok although the stream ended before the data was complete".to_string())) }
+                    }
+                };
+                (*k, bad)
+            })
+            .collect();
+        rep.eval(ks.len() as u64);
+        rep.count("end_of_stream_executions", ks.len() as u64);
+        for (k, bad) in eres {
+            if let Some((what, d)) = bad {
+                rep.violation(format!("{what}/{}", sc.name), format!("stream ends at call {k} of {n}: {d}"), json!({"kind":"eof","scenario":sc.name,"k":k}));
+            }
+        }
         rep.sample(n as u64, || json!({"scenario":sc.name,"N":n,"ops":log.iter().take(12).map(|o| format!("{:?}@{}+{}", o.kind, o.pos, o.done)).collect::<Vec<_>>()}));
         if sc.name == "dir-write/gzip/sync" || sc.name == "archive-write/zstd/async" {
             rep.force_sample(json!({"scenario":sc.name,"N":n,"ops":log.iter().map(|o| format!("{:?}@{}+{}", o.kind, o.pos, o.done)).collect::<Vec<_>>()}));
@@ -109,10 +148,21 @@ pub fn replay(case: &Value) -> Vec<String> {
     let Some(sc) = scs.iter().find(|s| s.name == name) else { return vec![format!("unknown scenario {name}")] };
     let (base, _) = (sc.run)(Box::new(DefaultChooser));
     let k = case["k"].as_u64().unwrap_or(0) as usize;
+    if case["kind"].as_str() == Some("eof") {
+        let (o, _) = (sc.run)(Box::new(EofFrom(k)));
+        return match &o.result {
+            Ok(v) if base.parts.is_empty() && !(match sc.role { Role::Writer => o.image == base.image, Role::Reader => Ok(v) == base.result.as_ref() }) => vec!["Ok after the stream ended early".to_string()],
+            Ok(_) if o.parts.iter().enumerate().any(|(i, (n, r))| r.is_ok() && !matches!(base.parts.get(i), Some((bn, br)) if bn == n && br == r)) => vec!["a call of the session returns Ok with an incomplete value".to_string()],
+            Err(e) if e.starts_with("PANIC") => vec![e.clone()],
+            _ => vec![],
+        };
+    }
     let ek = match case["error_kind"].as_str() {
         Some("UnexpectedEof") => ErrorKind::UnexpectedEof,
         Some("BrokenPipe") => ErrorKind::BrokenPipe,
         Some("InvalidData") => ErrorKind::InvalidData,
+        Some("TimedOut") => ErrorKind::TimedOut,
+        Some("WouldBlock") => ErrorKind::WouldBlock,
         _ => ErrorKind::Other,
     };
     let (o, _) = (sc.run)(Box::new(FailFromKind(k, ek)));
